@@ -251,6 +251,14 @@ fixed("F19c", "C19", "7d2a38c",
                  ["new", "pda", {"finals": ["q1"], "how": "mut", "kpool": "std", "spool": "str", "start": "q0",
                                  "trans": [["q0", "a", "Z", "q0", []], ["q0", "a", "Z", "q0", ["Z"]]], "ypool": "ab", "z0": "Z"}],
                  ["op", "to_empty_stack", [1]]]}, hashseed="1923123798")
+fixed("F19f", "C19", "4a6de27",
+      "PDA.intersection raised KeyError(None) on a PDA without start state (the PDA() returned by an earlier intersection)",
+      {"family": "pda_grammar_automata",
+       "steps": [["new", "regex", {"text": "a"}],
+                 ["new", "fa", fa("dfa", [[0, "a", 0]], [], [0], pool="int")],
+                 ["new", "pda", {"finals": [], "how": "mut", "kpool": "std", "spool": "str", "start": "q0",
+                                 "trans": [["q0", "a", "Z", "q0", []], ["q0", "a", "Z", "q1", []]], "ypool": "ab", "z0": "Z"}],
+                 ["op", "p_inter_fa", [2, 1]], ["op", "p_inter_regex", [3, 0]]]})
 # ------------------------------------------------------------------ C06
 fixed("F06a", "C06", "2262869",
       "to_regex raised ValueError on automata with two start states",
